@@ -242,8 +242,6 @@ fn gen_cmd(r: &mut Rng, g3: &mut c03::Gen, st: &mut StreamSt, dirty: bool, intx:
     // file all the same, and start-up replays it through the command executor, which accepts it (witness:
     // binary_witnesses)
     if restarts && matches!(&name[..], b"SET" | b"INCR" | b"INCRBY") && cmd.get(1).map_or(false, |x| x.is_empty()) { return None; }
-    // same class: the executor drops the NOACK of an XREADGROUP it replays (the entries become pending)
-    if restarts && name == b"XREADGROUP" && cmd.iter().any(|a| a.eq_ignore_ascii_case(b"NOACK")) { return None; }
     // times to live so long that the deadline, as a Unix time in milliseconds, no longer fits an i64: the
     // PEXPIREAT record then holds a number the replay refuses (harmless: the key keeps the relative time
     // the record before it gave it) - the model's clock starts at 0 and cannot mirror where that happens
@@ -1013,7 +1011,6 @@ pub fn judge(c: &Case, outs: &[Vec<Tok>]) -> Vec<String> {
                     None => done().iter().any(|d| STATE_CHANGING.contains(&&d.name[..]) && took_effect(&d.name, &d.reply)) && after.iter().all(|x| matches!(x, V::Int(0) | V::Int(-2) | V::NullBulk | V::Error(_)) || matches!(x, V::Array(l) if l.is_empty()) || matches!(x, V::Simple(t) | V::Bulk(t) if t == b"none")) };
                 // known class: a SET of the empty key, refused when it was sent, is accepted by the start-up replay
                 let class = if done().iter().any(|d| (matches!(&d.name[..], b"SET" | b"INCR" | b"INCRBY") && arg(&d.req, 1).map_or(false, |a| a.is_empty()))
-                                                        || (d.name == b"XREADGROUP" && matches!(&d.req, V::Array(l) if l.iter().any(|a| matches!(a, V::Bulk(o) if o.eq_ignore_ascii_case(b"NOACK")))))
                                                         || matches!(&d.req, V::Array(l) if l.iter().any(|a| !matches!(a, V::Bulk(_))))) { "class=startup-executor-differs " } else { "" };
                 if lost { fails.push(format!("FAIL case={} op={} {}the dataset after the restart is not the dataset before it", c.id, k, class)); }
             }
